@@ -2268,10 +2268,15 @@ func (p *Posix) ListMultipartUploads(_ context.Context, mpu *s3.ListMultipartUpl
 		}
 	}
 
+	// the uploads are paged through in the order (key, upload id): the
+	// markers of a truncated page name the last upload it holds, the next
+	// page starts behind that upload
 	sort.SliceStable(uploads, func(i, j int) bool {
-		return uploads[i].Key < uploads[j].Key
+		if uploads[i].Key != uploads[j].Key {
+			return uploads[i].Key < uploads[j].Key
+		}
+		return uploads[i].UploadID < uploads[j].UploadID
 	})
-	// the key marker is located in the sorted list, which is the one paged through
 	for i := range uploads {
 		if uploads[i].Key == keyMarker {
 			keyMarkerInd = i
@@ -2292,12 +2297,20 @@ func (p *Posix) ListMultipartUploads(_ context.Context, mpu *s3.ListMultipartUpl
 		}, nil
 	}
 
-	for i := keyMarkerInd + 1; i < len(uploads); i++ {
+	for i := 0; i < len(uploads); i++ {
 		if maxUploads == 0 {
 			break
 		}
-		if keyMarker != "" && uploadIDMarker != "" && uploads[i].UploadID < uploadIDMarker {
-			continue
+		if keyMarker != "" {
+			// behind the marker: a greater key, or the marker's key with
+			// a greater upload id (without an upload id marker all
+			// uploads of the marker's key are behind us)
+			if uploads[i].Key < keyMarker {
+				continue
+			}
+			if uploads[i].Key == keyMarker && (uploadIDMarker == "" || uploads[i].UploadID <= uploadIDMarker) {
+				continue
+			}
 		}
 		if len(resultUpds) == maxUploads {
 			return s3response.ListMultipartUploadsResult{
